@@ -55,6 +55,10 @@ CHECKS = {
             "Runtime monitor: label codec round trip for every label length 1..255 and hostile first bytes over four stream fragmentations and every header truncation; cross-label isolation on a real node: every message type on both paths carrying no / equal / prefix / extension / other label headers (sealed with either label as associated data), with SkipInboundLabelCheck on/off; the effect oracle covers acks, nacks, relays, delegate calls, membership, events, self-refutation, stream reply bytes and any transmission. A positive control (right label => every effect present) keeps the absence oracle from being blind.",
             "Trusts the simulated connection (ordered byte stream, fragmentation as configured), the wire codec.",
             "round-trip property monitor + effect-equals-empty oracle with positive control", "DESIGN.md §3 C16"),
+    "C12": ("E1-simnet (sender/receiver pairs)", "exploration",
+            "Runtime monitor at the API boundary: pairs of real nodes over the protocol-version x key-size x compression x label x time-format matrix (covering subset in quick, all 120 cells in thorough); user payloads of boundary sizes through the four user paths, push/pull user state in both directions, membership fields after join and after an update, ping and ack payload; the oracle is byte equality of what the sender passed in with what the receiver's delegate / table holds, exactly once, nothing extra; a burst while the receiver's delegate is busy checks that queued message buffers survive later packets.",
+            "Trusts only the simulated loss-free network and the Go runtime; the oracle-side codec is not on the comparison path.",
+            "end-to-end byte-equality monitor over the configuration matrix", "DESIGN.md §3 C12"),
 }
 
 NOT_YET = "check not built yet in this round (design in DESIGN.md §3); not claimed until its monitor runs clean on the unchanged tree"
@@ -90,7 +94,7 @@ def main():
             "add_only": True,
         },
         "engines": [
-            {"name": "E1-simnet", "path": "harness/simnet.go", "serves_properties": ["C02", "C03", "C04", "C05", "C07", "C08", "C17"], "kind_free_text": "real Memberlist instances on an in-memory transport inside a testing/synctest bubble (virtual time), with wire tap, fault scripts and fake peers"},
+            {"name": "E1-simnet", "path": "harness/simnet.go", "serves_properties": ["C02", "C03", "C04", "C05", "C07", "C08", "C12", "C17"], "kind_free_text": "real Memberlist instances on an in-memory transport inside a testing/synctest bubble (virtual time), with wire tap, fault scripts and fake peers"},
             {"name": "E2-model-lockstep", "path": "harness/", "serves_properties": ["C01", "C02", "C06", "C08", "C10", "C16", "C17", "C18"], "kind_free_text": "PRNG operation sequences against one object with an executable reference model evaluated in lock-step"},
         ],
         "checks": checks,
